@@ -94,7 +94,7 @@ func (a *tableAuthz) Authorize(sess *wamp.Session, msg wamp.Message) (bool, erro
 		case "deny":
 			return false, nil
 		case "fail":
-			return false, errors.New("authorizer failure")
+			return false, errors.New("<text>")
 		case "rewrite":
 			if uri != nil {
 				*uri = wamp.URI(r.To)
@@ -124,6 +124,15 @@ func (r *runner) sidOf(idx int) wamp.ID {
 		return c.sid
 	}
 	return 0
+}
+
+func (r *runner) realmOf(recv int) int {
+	r.mu.Lock()
+	defer r.mu.Unlock()
+	if c, ok := r.clients[recv]; ok {
+		return c.realm
+	}
+	return -1
 }
 
 func realmURI(i int) wamp.URI { return wamp.URI("realm" + strconv.Itoa(i)) }
@@ -220,7 +229,7 @@ func runInBubble(sc *Scenario, res *ImplRun) {
 				run.env.authIDs[a] = true
 			}
 		}
-		or.Canon = CanonOp(or.Obs, or.Left, run.env, run.namer)
+		or.Canon = CanonOp(or.Obs, or.Left, run.env, run.namer, run.realmOf)
 		if sizes, ok := router.VerifTableSizes(rt, realmURI(op.Realm)); ok {
 			or.Sizes = sizes
 		}
@@ -339,6 +348,10 @@ func (run *runner) exec(or *OpResult, res *ImplRun) {
 		keep := *op.M // symbolic payload, concrete id: what the model side is given
 		keep.Ref = &Ref{Kind: "lit", Lit: id}
 		op.M = &keep
+		if m.Kind == "call" && m.URI == "wamp.subscription.get_events" {
+			// the model's decimal virtual milliseconds stand for RFC3339 times
+			m.Kw = timesToRFC3339(m.Kw, run.start)
+		}
 		msg := buildMsg(m, id)
 		select {
 		case c.cli.Send() <- msg:
@@ -441,4 +454,24 @@ func kwOrNil(v Val) wamp.Dict {
 		return nil
 	}
 	return v.ToDict()
+}
+
+func timesToRFC3339(kw Val, start time.Time) Val {
+	if kw.T != 'd' {
+		return kw
+	}
+	out := Val{T: 'd'}
+	for _, e := range kw.D {
+		v := e.V
+		switch e.K {
+		case "from_time", "after_time", "before_time", "until_time":
+			if v.T == 's' && v.K == 's' {
+				if ms, err := strconv.ParseInt(v.S, 10, 64); err == nil && ms >= 0 {
+					v = Str(start.Add(time.Duration(ms) * time.Millisecond).UTC().Format(time.RFC3339Nano))
+				}
+			}
+		}
+		out.D = append(out.D, KV{e.K, v})
+	}
+	return out
 }
